@@ -44,6 +44,25 @@ Theorem C11_generated_parser_error_token :
 Proof. exact generated_parser_error_token. Qed.
 Print Assumptions C11_generated_parser_error_token.
 
+(** Why the theorem above is stated without -switch: the error token is a fact about the attempt the parser makes, and
+    the -switch parser makes another attempt.  An alternative that begins with lookahead - &R1 'x' - has first set {x};
+    on "ab" the default parser tries it, the lookahead matches R1 over [0,2) and records that token as the furthest before
+    'x' fails; the -switch parser dispatches on 'a', never enters the alternative and reports the zero token.  Verdict,
+    prefix and tokens agree (C02); the error token does not, in the model and in the shipped generator alike (the
+    message reads "near R1 (line 1 symbol 1 - line 1 symbol 3)" without -switch and "near Unknown (line 1 symbol 1 -
+    line 1 symbol 1)" with it).  Each parser's token is the one C11 describes for ITS attempt (C11_error_token holds of
+    the optimised tree too); "invariant under -switch" would be a strengthening of C11 and C02, and it is false: *)
+Definition et_g : grammar :=
+  [ RBody (ESeq [EAlt [ESeq [EAnd (EName 1); EChar 120]; ERange 104 110; ERange 111 119]; ENot EDot]);
+    RBody (ESeq [EChar 97; EChar 98]) ]%Z.
+Example C11_error_token_invariant_under_switch_refuted :
+  wf_auto et_g = true /\ good_grammar_b et_g = true /\ grammar_alt2_b et_g = true /\ closed_names_b et_g = true /\
+  exists s1 s2,
+    machine et_g 9 [97; 98]%Z (std_penv [97; 98]%Z) true false 30 0 zero_state = Some (Ret false s1) /\
+    machine (optimize et_g) 9 [97; 98]%Z (std_penv [97; 98]%Z) true false 30 0 zero_state = Some (Ret false s2) /\
+    maxtok s1 = (1, (0, 2)) /\ maxtok s2 = (0, (0, 0)).
+Proof. vm_compute. repeat split; try reflexivity. eexists _, _. repeat split; reflexivity. Qed.
+
 (** For every rune list and every token with begin <= end <= number of runes (in particular the error
     token, by the theorem above; also the empty input, offset 0 and end of input), the message fields
     computed by translatePositions + Error() are: 1-based line = 1 + newlines before the offset,
